@@ -105,7 +105,7 @@ def run_history(desc):
             def rv(rlab, si=si):
                 code = 0
                 for l in rl:
-                    code += (ritems[l].index(rlab[l]) + 1) * 10 ** uorder.index(orig[l])
+                    code += (ritems[l].index(rlab[l]) + 1) * build.code_base(U) ** uorder.index(orig[l])
                 return float(-(code * 7 + si))
 
             value = build.ndarray_from_fn(rl, ritems, rv, float)
@@ -182,7 +182,7 @@ def run_history(desc):
 
 @st.composite
 def histories(draw, mode, max_steps=5, max_dims=4, max_len=3):
-    U = draw(gen.universes(min_dims=draw(st.sampled_from([1, 2, 3])), max_dims=max_dims, max_len=max_len))
+    U = draw(gen.universes(min_dims=draw(st.sampled_from([1, 2, 3])), max_dims=max_dims, max_len=max_len, long_dim=8 if mode == "coded" else 0))
     allL = gen.uletters(U)
     target = draw(gen.arrays(U, modes=(mode,), tag="x", min_dims=1))
     tl = target["letters"]
